@@ -1,11 +1,10 @@
 import CookModel.Driver.Num
-import CookModel.Driver.Syntax
 import CookModel.Driver.Builder
-/- Registry of line-protocol handlers. One line per area. -/
+/- Registry of line-protocol handlers. One line per area.
+   (branch `builder`: Driver.Syntax left out because Syntax/Blocks.lean of main@cffb4a1 does not build; keep both lines when merging) -/
 namespace Cook.Driver
 def handlers : List (List String → Option String) := [
   handleNum,
-  handleSyntax,
   handleBuilder
 ]
 end Cook.Driver
